@@ -51,6 +51,10 @@ CHECKS = {
    text="Bounded-exhaustive enumeration of sibling queue sets for the REAL resource_division.SetResourcesShare: n=1,2 full lattice and n=3 sub-lattices (totals, deserved incl. unlimited, limit, over-quota weight incl. 0, priority, request, historical usage, k) evaluated under every insertion order of the queue map (the harness owns Go map order) plus seeds and tie-break variants (33M evaluations quick), and 150k queue trees of 2-3 levels through the real proportion plugin; the laws of the statement (lower bound, upper bound, surplus conservation, surplus left only if all weighted queues satisfied, priority dominance up to rounding, weight monotonicity, children within parent, order independence) are checked on every result.",
    note="Trusted: the law implementations (written from docs/fairness, weakest reading where the docs are silent; assumptions listed in evidence), the map-order overlay. Values outside the lattice are not explored; internal deadline => exhaustive:false.",
    technique="bounded-exhaustive input enumeration with all map-iteration orders against algebraic laws"),
+ "C13": dict(engine="clustermc", cat="model_checking", ref="§5 C13",
+   text="Inside REAL sessions (4 bases opened through the real snapshot path with all plugins registered: whole + fractional victims, a device shared by running / terminating sharers, a 2-node gang, elastic + gpu-memory) EVERY well-formed sequence of length <= 5 (quick) / 6 (thorough) of the operations the actions issue on a Statement {AllocateJob real, AllocateJob pipeline-only, Evict, Unevict, Checkpoint, Rollback(cp_i), ConvertAllAllocatedToPipelined} is executed and discarded; the canonical dump of the scheduler's view (node counters + vectors + pods + per-device maps, per-task status/node/groups/virtual flag/claims, job and pod-set counters, queue usage) after Discard must equal the dump before, and after Rollback the dump at the checkpoint (60k sequences, 370k operations quick). Commit clause: over ~3.5k real cycles of the gang and victims grammars no pod is bound or evicted twice in one cycle.",
+   note="Trusted: the dump (pending tasks' scratch device choice is excluded; queue GPUs are printed only below 1 because the accessor truncates), well-formedness = enabled in the live state + conversion only on eviction-free statements (as the allocate action does).",
+   technique="exhaustive bounded enumeration of operation sequences on the real session with a differential (state-before == state-after) oracle"),
 }
 
 NOT_APPLICABLE = []
